@@ -611,7 +611,7 @@ def hand_docs():
 
 def gen_cases(rng, tier):
     cases = []
-    n_docs = {"quick": 110, "thorough": 1200, "search": 250}[tier]
+    n_docs = {"quick": 110, "thorough": 2000, "search": 250}[tier]
     for i in range(n_docs):
         size = rng.choice(["small", "normal", "normal", "large"] if i % 10 else ["large"])
         desc = odgen.gen_desc(rng, "written", size)
@@ -625,7 +625,7 @@ def gen_cases(rng, tier):
         for doc, keys in hand_docs():
             for nid in (None, 3):
                 cases.append(dict(kind="raw", doc=doc, nid=nid, keys=keys))
-        for i in range({"quick": 90, "thorough": 800}[tier]):
+        for i in range({"quick": 90, "thorough": 1200}[tier]):
             desc = odgen.gen_desc(rng, "written", "small")
             cases.append(dict(kind="raw", doc=mutate_doc(W.tokens(desc), rng), nid=rng.choice([None, 9]), keys=lookup_keys(desc)[:12]))
     rng.shuffle(cases)          # spread the long documents over the case files (which are evaluated in parallel)
